@@ -24,7 +24,30 @@ replayed on a fresh Session and fresh SQLite file.  After *every* operation:
 The pre-state that (d) quotes ("present", "not expired") is read from the
 Session before the operation; nothing is predicted from hand-written SQL.
 
-Mutations caught: see end of file docstring list MUTATIONS.
+Finding on the unchanged tree: a primary-key switch that was flushed, then
+``expunge(obj)``, then ``rollback()`` puts the *detached* object back into
+``Session.identity_map`` (`_restore_snapshot` re-keys every state in
+`_key_switches` without checking that it is still attached).
+
+Session.delete() of an object already in the deleted state and
+make_transient_to_detached() / add() of an object whose row does not exist are
+outside the documented preconditions and guarded (ormworld1 ``op_delete_live``,
+``op_mttd_known``, ``op_add_known``).
+
+Mutations caught (private copy, `VF_REPO=/tmp/wt-orm1 ./check C34`):
+ * session.py `_register_persistent`: `identity_map.safe_discard(state)`
+   dropped on primary-key switch -> "identity map entry under a key that is
+   not the object's own key"
+ * loading.py `_instance`: an expired identity-map entry treated as absent
+   (second instance created) -> "persistent object is not the identity
+   map's entry for its key"
+ * session.py `get`: identity lookup skipped unless identity_token given
+   -> "get of a present, unexpired identity emitted SQL"
+ * loading.py `_instance`: identity_token dropped from the identity key
+   -> "query(identity_token): ... unexpected identity key"
+ * identity.py `WeakInstanceDict.add`: "another instance with key is already
+   present" raised only if the existing state is modified (twin attach
+   succeeds) -> "persistent object is not the identity map's entry for its key"
 """
 from __future__ import annotations
 
@@ -410,7 +433,7 @@ def shards(tier, seed):
     return [None]  # one shard; the level-synchronous BFS runs its own fork pool
 
 
-SHARD_TIMEOUT = dict(quick=1500, thorough=7200)
+SHARD_TIMEOUT = dict(quick=3600, thorough=6 * 3600)
 WARM = dict(
     plain=[("query", "Plain"), ("get", "Plain", 3), ("add_known", "z", "auto"), ("set", "b1", "name", "w"), ("flush",), ("merge", "Plain", (("id", 1), ("name", "m"))), ("refresh", "b1"), ("delete_live", "b2"), ("commit",), ("get", "Plain", 1)],
     poly=[("query", "Person"), ("get", "Engineer", 1), ("add_known", "e", "auto"), ("flush",), ("refresh", "b1"), ("delete_live", "b2"), ("commit",), ("get", "Manager", 2)],
